@@ -189,6 +189,22 @@ type NRoundSub struct {
 	V int32  `clover:"v" json:"v"`
 }
 
+// NRename: the clover name, the json name and the Go field name all differ; embedded struct with tags.
+type NRenameEmb struct {
+	EI int8   `clover:"emb_i" json:"embI"`
+	ES string `clover:"emb_s"`
+}
+type NRename struct {
+	A int64        `clover:"ca" json:"ja"`
+	B string       `clover:"cb" json:"jb,omitempty"`
+	C bool         `json:"jc"`
+	D []NRenameSub `clover:"cd" json:"jd"`
+	NRenameEmb
+}
+type NRenameSub struct {
+	X uint16 `clover:"cx" json:"jx"`
+}
+
 type typedCase struct {
 	name string
 	v    interface{}
@@ -467,6 +483,31 @@ func NormSweep(run *ev.Run) {
 			}
 			if (r.Ptr == nil) != (back.Ptr == nil) || (r.Tags == nil) != (back.Tags == nil) && len(r.Tags) > 0 {
 				viol("roundtrip", name, "nil-ness of pointer field changed")
+			}
+		})
+	}
+	for i, r := range []NRename{{}, {A: -5, B: "b", C: true, D: []NRenameSub{{X: 7}, {X: 0}}, NRenameEmb: NRenameEmb{EI: -3, ES: "e"}}} {
+		name := fmt.Sprintf("rename-roundtrip-%d", i)
+		r := r
+		guard("roundtrip", name, func() {
+			d := document.NewDocumentOf(r)
+			run.Add("evaluations", 1)
+			if d == nil {
+				viol("roundtrip", name, "NewDocumentOf(struct) returned nil")
+				return
+			}
+			want, _ := RefNormalize(r)
+			if !m.Equal(d.ToMap(), want) {
+				viol("roundtrip", name, fmt.Sprintf("NewDocumentOf gives %s, expected %s", m.Canon(d.ToMap()), m.Canon(want)))
+			}
+			var back NRename
+			if err := d.Unmarshal(&back); err != nil {
+				viol("roundtrip", name, fmt.Sprintf("Unmarshal failed: %v", err))
+				return
+			}
+			b, _ := RefNormalize(back)
+			if !m.Equal(want, b) {
+				viol("roundtrip", name, fmt.Sprintf("struct -> document -> Unmarshal changed the value: %s -> %s", m.Canon(want), m.Canon(b)))
 			}
 		})
 	}
